@@ -62,6 +62,10 @@ def case_strategy(unit):
         "near_special": st.one_of(st.none(), st.none(), st.none(), st.tuples(S.logfl(1e-8, 1e-2), st.sampled_from([-1.0, 1.0])).map(lambda t: t[0] * t[1])),
         "byname": st.booleans(), "upper": st.booleans(), "blank": st.booleans(), "name_only": st.booleans(),
         "cell_as": st.sampled_from(["list", "list", "array", "list", "array", "int-list", "int-array"]),   # (a tuple cell makes the debug logging of six Laue classes raise TypeError: observed, outside the documented list/array input, not claimed)
+        # extremes of the domain: one axis 20..200 times longer or shorter than the others (needles / plates: Miller indices
+        # of 100-250 along the long axis), and shells holding many thousands of reflections instead of up to 1500
+        "aspect": st.one_of(st.none(), st.none(), st.none(), st.none(), st.tuples(st.integers(0, 2), S.logfl(20, 200), st.booleans()).map(list)),
+        "max_points": st.sampled_from([None] * 18 + [12000, 40000]),
         "npseed": st.integers(0, 2 ** 31 - 1), "npseed2": st.integers(0, 2 ** 31 - 1),
         "mod": st.sampled_from(["tools", "laue"]), "pick": S.fl(0, 1)})
 
@@ -75,6 +79,11 @@ def build(case, max_points=1500):
     no, ch = GR.SETTINGS[case["setting"]]
     g = GR.group(no, ch)
     a, b, c = [x * case.get("cell_scale", 1.0) for x in case["abc"]]      # up to ~150 A: small sin(theta)/lambda values
+    asp = case.get("aspect")
+    if asp is not None:
+        ax = [a, b, c]
+        ax[asp[0]] = ax[asp[0]] * asp[1] if asp[2] else max(0.5, ax[asp[0]] / asp[1] * 4.0)
+        a, b, c = ax
     if case.get("equal_axes"):          # pseudo-symmetric metric: edges exactly equal although the system does not require it
         b = c = a
     ang1 = case["tri_alpha"] if g.crystal_system == "triclinic" and ch != "rhombohedral" else case["ang"][0]
@@ -102,7 +111,9 @@ def build(case, max_points=1500):
     cell, typed_cell = S.whole_number_variant(cell, how if how.startswith("int") else ("float-array" if how == "array" else "float-list"))
     G, Gs, V = O.metric(cell)
     scale = 1.1 if (g.Laue == "-3" and ch == "rhombohedral") else 1.0
-    cap = min(0.6, 0.5 * (max_points * 3 / (4 * math.pi * V)) ** (1.0 / 3))
+    if case.get("max_points"):
+        max_points = max(max_points, case["max_points"])
+    cap = min(0.6 if max_points <= 1500 else 1.5, 0.5 * (max_points * 3 / (4 * math.pi * V)) ** (1.0 / 3))
     H, s = GR.lattice_points(cell, cap * 1.1 + 1e-9)
     us = np.unique(np.concatenate([s, s / scale])) if scale != 1.0 else np.unique(s)
     us = us[us <= cap]
